@@ -423,9 +423,14 @@ func (m *Module) declaredFunctionIndexes() (ret map[Index]struct{}, err error) {
 	for i := range m.ElementSection {
 		elem := &m.ElementSection[i]
 		for _, index := range elem.Init {
-			if index != ElementInitNullReference {
-				ret[index] = struct{}{}
+			if index == ElementInitNullReference {
+				continue
 			}
+			if _, isGlobal := unwrapElementInitGlobalReference(index); isGlobal {
+				// The item is resolved via a global at instantiation: it declares no function index.
+				continue
+			}
+			ret[index] = struct{}{}
 		}
 	}
 	return
